@@ -650,6 +650,33 @@ def run_cube(k, c, only=None):
         if err > 1e-2:
             R.notes.append(f'{c.name}: decoded volume differs from the source by {err:.3g} relative')
 
+        # ---- an ordinary sweep on ONE open file: every inline in axis order, with a read through ANOTHER accessor in between
+        # (the accessors of one emulator share the file handle); every plane must be that of the decoded volume
+        if only is None:
+            inp = {'cube': cube, 'expr': 'for n in ilines: iline[n]; header[k]; xline[m]; trace[t]'}
+            R.count('interleaved_sweep')
+            R.case((c.name, 'interleaved sweep'))
+            try:
+                for i_, n_ in enumerate(c.ilines):
+                    pl = np.asarray(z.iline[int(n_)])
+                    if not bits_equal(pl, c.vol[i_]):
+                        R.violation('oracle', inp, f'iline[{int(n_)}] in the sweep is not the inline of the decoded volume')
+                        break
+                    _ = z.header[(7 * i_) % c.ntr]
+                    if i_ % 2:
+                        xv = np.asarray(z.xline[int(c.xlines[i_ % len(c.xlines)])])
+                        if not bits_equal(xv, c.vol[:, i_ % len(c.xlines)]):
+                            R.violation('oracle', inp, f'xline[{int(c.xlines[i_ % len(c.xlines)])}] in the sweep is not the crossline of the decoded volume')
+                            break
+                    else:
+                        tv = np.asarray(z.trace[(5 * i_) % c.ntr])
+                        t_ = (5 * i_) % c.ntr
+                        if not bits_equal(tv, c.vol[t_ // len(c.xlines), t_ % len(c.xlines)]):
+                            R.violation('oracle', inp, f'trace[{t_}] in the sweep is not the trace of the decoded volume')
+                            break
+            except Exception as e:
+                R.violation('oracle', inp, f'the sweep raised {type(e).__name__}: {e}')
+
         # ---- subvolume (oracle: the decoded volume sliced by coordinates; segyio's own lines at those coordinates)
         zs = [int(v) for v in np.asarray(z.samples)]
         axes = [c.ilines, c.xlines, zs]
